@@ -3,30 +3,34 @@ import MindsVerif.Gen.SaTables
 /-!
 # C17 — the renderer honours its fallback contract, never leaks internal errors, never mutates its input
 
-Models: `Model/Fallback.lean` (`getExecParams`, `saRaises`, `prepareCols`); tables: `Gen/SaTables.lean`
-(regenerated from the live `mindsdb_sql.render.sqlalchemy_render` on every run).
+Models: `Model/Fallback.lean` (`getExecParams`, `saRaises`, `clean`, `shaped`, `prepareCols`, `stripOutside`); tables and
+probed facts: `Gen/SaTables.lean`, regenerated from the live `mindsdb_sql.render.sqlalchemy_render` on every run
+(`tupleIsList`, `dupExc`, `pgKeepsLiteral` are PROBED behaviours: the model follows the code by itself).
 
-* **T17.1** `C17_wrapper`, `C17_never_raises_iff`, `C17_without_fallback`: the wrapper, for ALL inner
-  behaviours, printer behaviours, flags and dialect names.  With fallback it never raises IFF the inner
-  rendering raises only the two caught classes AND (when it did raise) `str(ast)` does not raise.
-* **T17.2** `C17_own_tables`: if no evaluated node fails one of its *local* own-table checks with an
-  uncaught class (`clean`), the first exception raised by the renderer's own code on the whole tree is
-  `none`, `SQLAlchemyError` or `NotImplementedError` — all trees, all contexts, all tables.
-  Since c96400c the local checks for cast types, aliased Parameters, unknown unary operators, non-table
-  nodes in table position and CREATE TABLE without / with unknown column types can only raise
-  NotImplementedError: `C17_cast_ok`, `C17_param_ok`, `C17_unop_iff`, `C17_table_position`,
-  `C17_create_table_ok` (unconditional).  Still leaking: a Python list (Tuple) as operand, duplicate INSERT
-  column (`C17_insert_dup_iff`).
-  [review] The last sentence describes history: on the regenerated tables of HEAD `tupleIsList = false` and
-  `dupExc = "sa"`, the premises of `C17_witness_tuple_operand` / `C17_witness_insert_dup` are false (vacuous), and
-  `clean` follows from the parser-shape invariant alone — see `C17_review_live*` below.
-* **T17.3** `C17_no_mutation`: `prepare_create_table` never writes to the caller's columns (unconditional
-  since 0ccda5f; the only non-self attribute stores of the module are pinned to be none).
-* `C17_partial`: the property's three clauses for the model, under the explicit hypotheses `clean`,
-  `saQuiet` (SQLAlchemy's own part raises only the caught classes — NOT derivable from any model, probed)
-  and `printerTotal` (`str(ast)` returns).  `C17_full` (without hypotheses) is false:
-  `C17_witness_*` exhibit the remaining excluded classes on the generated tables; `C17_fixed_*` show the
-  repaired constructs now go through the fallback.
+Current state (the live tables `G`):
+
+* **T17.1 wrapper** `C17_wrapper`, `C17_never_raises_iff`, `C17_without_fallback` — for ALL inner behaviours, printer
+  behaviours, flags, dialect names and both back-tick scanners: with fallback it never raises IFF the inner rendering raises
+  only the two caught classes AND (when it did raise) `str(ast)` does not raise; without fallback whatever is raised propagates.
+* **T17.2 own code** `C17_own_tables` (generic: locally `clean` ⇒ the first exception of the renderer's own code is none /
+  SQLAlchemyError / NotImplementedError), `C17_repaired_clean` (Tuples are sqlalchemy tuples ∧ `RenderError` is caught ∧
+  parser-shape invariant `shaped` ⇒ `clean`), and for the LIVE tables `C17_review_live_tables` (`decide`d: both facts hold on
+  HEAD) hence `C17_review_live_own_tables`: on EVERY parser-shaped tree the renderer's own code raises at most the caught
+  classes.  Per-construct facts: `C17_cast_ok`, `C17_param_ok`, `C17_unop_iff`, `C17_table_position`, `C17_create_table_ok`,
+  `C17_insert_dup_iff`.
+* **T17.3 mutation** `C17_no_mutation`: the column loop of `prepare_create_table` returns the caller's columns as they were
+  (true by construction of the model; the content is the tie: the `create-table-columns` stream, the pinned absence of any
+  attribute store / aliased container write on the tree — `pins.attrStores`, `pins.paramWrites` — and the snapshot probe).
+* **The property** `C17_review_live` (= C17 partial on the live tables): `Honours` for every parser-shaped tree under the two
+  behavioural hypotheses `saQuiet` (SQLAlchemy's own part raises only caught classes — NOT derivable from any model here,
+  probed) and `printerTotal` (`str(ast)` returns).  `C17_live_exact`: these two are not merely sufficient — on a parser-shaped
+  tree the call with fallback raises IF AND ONLY IF SQLAlchemy's part raised an uncaught class or the fallback printer raised;
+  no failure mode is left in the renderer's own code.  `C17_partial` / `C17_partial_repaired` are the generic versions
+  (any tables).  `C17_full` (no hypotheses) is false: `C17_full_false`.
+* **History / regression theorems** (about the tables BEFORE the repairs, `Gold`): `C17_regression_tuple_operand`,
+  `C17_regression_insert_dup`, `C17_witness_pg_backtick` (old vs live scanner); `C17_fixed_*`, `C17_repaired_witnesses`: the
+  former witnesses on the live / repaired tables.
+* `pins`, `core_types`: what the hand model hard-codes about the source vs the regenerated data.
 -/
 namespace MindsVerif.Props.C17
 open MindsVerif.Fallback MindsVerif.Gen
@@ -37,9 +41,13 @@ def G : Tables :=
     opmap := SaTables.opmap, listOps := SaTables.listOps, textHas := SaTables.textHas,
     tupleIsList := SaTables.tupleIsList, dupExc := excOfProbe SaTables.dupExc }
 
-/-- the tables once fixes/C17_1.diff (Tuples become `sa.tuple_`) and fixes/C17_3.diff (`RenderError` is a
-SQLAlchemyError) have landed; `G` becomes equal to it by itself because both facts are probed -/
+/-- the tables with Tuples rendered as `sa.tuple_` and `RenderError` a SQLAlchemyError, whatever the probes say
+(on HEAD `G` has exactly these facts: `C17_review_live_tables`) -/
 def Gr : Tables := { G with tupleIsList := false, dupExc := .sa }
+
+/-- the tables as they were BEFORE those two repairs (`to_expression(Tuple)` a Python list, `RenderError` a plain
+`Exception`): only used by the regression theorems -/
+def Gold : Tables := { G with tupleIsList := true, dupExc := .exception }
 
 /-- what the hand model hard-codes about the source, pinned against the regenerated data -/
 theorem pins :
@@ -248,7 +256,7 @@ theorem C17_partial {ρ : Type} (tb : Tables) (w : Bool) (t : T) (saPart : Outco
     rw [this] at hin
     exact hin
 
-/-! ## witnesses: every excluded class is inhabited (on the generated tables) -/
+/-! ## repaired constructs on the live tables, and regression theorems about the old variants -/
 
 def sel (targets : List T) (from_ : T := .mk .nil []) (wh : T := .mk .nil []) : T :=
   .mk (.select .none none) [.mk .grp targets, .mk .grp [], from_, wh, .mk .grp [], .mk .nil [], .mk .grp []]
@@ -286,27 +294,29 @@ theorem C17_fixed_serial :
     ∧ (prepareCols G [⟨some "SERIAL", false⟩, ⟨some "foo", false⟩]) = ([⟨some "SERIAL", false⟩, ⟨some "foo", false⟩], some .notImpl) := by
   decide
 
-/-- (as long as the probe says `to_expression(Tuple)` is a Python list) `select -(a, b)` → AttributeError; `select (a, b) + 1` → TypeError; `select (a, b) - 1`, `(a, b) like c` → AttributeError -/
-theorem C17_witness_tuple_operand : SaTables.tupleIsList = true →
-    saRaises G false .stmt (sel [.mk (.unop "-" none) [tup [col "a", col "b"]]]) = some .attr
-    ∧ saRaises G false .stmt (sel [.mk (.binop "+" none) [tup [col "a", col "b"], .mk (.const none) []]]) = some .type
-    ∧ saRaises G false .stmt (sel [.mk (.binop "-" none) [tup [col "a", col "b"], .mk (.const none) []]]) = some .attr
-    ∧ saRaises G false .stmt (sel [.mk (.binop "like" none) [tup [col "a"], col "c"]]) = some .attr
-    ∧ saRaises G false .stmt (sel [.mk .star []] (.mk .nil []) (.mk (.binop "in" none) [col "a", tup [.mk (.const none) []]])) = none := by
+/-- REGRESSION (old tables `Gold`: `to_expression(Tuple)` a Python list): `select -(a, b)` → AttributeError;
+`select (a, b) + 1` → TypeError; `(a, b) - 1`, `(a, b) like c` → AttributeError; a Tuple as right operand of `in` was fine.
+This is what comes back if the Tuple repair is undone (then `C17_review_live_tables` fails first). -/
+theorem C17_regression_tuple_operand :
+    saRaises Gold false .stmt (sel [.mk (.unop "-" none) [tup [col "a", col "b"]]]) = some .attr
+    ∧ saRaises Gold false .stmt (sel [.mk (.binop "+" none) [tup [col "a", col "b"], .mk (.const none) []]]) = some .type
+    ∧ saRaises Gold false .stmt (sel [.mk (.binop "-" none) [tup [col "a", col "b"], .mk (.const none) []]]) = some .attr
+    ∧ saRaises Gold false .stmt (sel [.mk (.binop "like" none) [tup [col "a"], col "c"]]) = some .attr
+    ∧ saRaises Gold false .stmt (sel [.mk .star []] (.mk .nil []) (.mk (.binop "in" none) [col "a", tup [.mk (.const none) []]])) = none := by
   decide
 
-/-- (as long as the probe says `RenderError` is a plain `Exception`) `insert into t (a, a) values (1, 2)` → RenderError,
-through the fallback -/
-theorem C17_witness_insert_dup : SaTables.dupExc = "exception" →
-    saRaises G false .stmt (.mk (.insert (.ident 1) (some ["a", "a"]) false true) [.mk .grp [.mk (.const none) [], .mk (.const none) []]])
+/-- REGRESSION (old tables `Gold`: `RenderError` a plain `Exception`): `insert into t (a, a) values (1, 2)` → RenderError,
+which went through the fallback -/
+theorem C17_regression_insert_dup :
+    saRaises Gold false .stmt (.mk (.insert (.ident 1) (some ["a", "a"]) false true) [.mk .grp [.mk (.const none) [], .mk (.const none) []]])
       = some .exception
-    ∧ getExecParams (innerOf G false
+    ∧ getExecParams (innerOf Gold false
         (.mk (.insert (.ident 1) (some ["a", "a"]) false true) [.mk .grp [.mk (.const none) [], .mk (.const none) []]]) (.ret "sql"))
         (.ret "s") true "mysql" = .raised .exception := by
   decide
 
-/-- postgres: today (`keepLiteral = false`) the fallback text is `str(ast)` with every back-tick removed — also inside
-string constants; the repaired scanner (fixes/C17_7.diff, `keepLiteral = true`) removes identifier quotes only -/
+/-- postgres, old vs live: the OLD code (`keepLiteral = false`) returned `str(ast)` with every back-tick removed — also
+inside string constants; the live scanner (`keepLiteral = true`, probed: `C17_live_pg`) removes identifier quotes only -/
 theorem C17_witness_pg_backtick :
     getExecParams (Outcome.raise .notImpl : Outcome String) (.ret "SELECT 'a`b' FROM `x y`.b.c.d") true "postgresql" false
       = .fallback "SELECT 'ab' FROM x y.b.c.d"
@@ -315,7 +325,10 @@ theorem C17_witness_pg_backtick :
     ∧ getExecParams (Outcome.raise .notImpl : Outcome String) (.ret "SELECT 'a`b' FROM a.b.c.d") true "mysql"
       = .fallback "SELECT 'a`b' FROM a.b.c.d" := by decide
 
-/-- the repaired scanner is the identity on texts without back-ticks (and `stripBackticks` always was) -/
+/-- the probe says the live postgres fallback keeps back-ticks inside string literals -/
+theorem C17_live_pg : SaTables.pgKeepsLiteral = true := by decide
+
+/-- the live scanner is the identity on texts without back-ticks -/
 theorem C17_pg_scanner_identity (s : List Char) (h : ∀ c ∈ s, c ≠ '`') :
     stripOutside (String.ofList s) = String.ofList s := by
   unfold stripOutside
@@ -328,9 +341,9 @@ theorem C17_full_false : ¬ C17_full := by
   revert this
   decide
 
-/-! ## after fixes/C17_1.diff + C17_3.diff: the hypothesis `clean` disappears -/
+/-! ## Tuples as sqlalchemy tuples + `RenderError` caught: the hypothesis `clean` follows from the parser-shape invariant -/
 
-/-- **T17.2 (repaired)**: once Tuples are rendered as sqlalchemy tuples and `RenderError` is a caught class, EVERY
+/-- **T17.2 (generic form)**: when Tuples are rendered as sqlalchemy tuples and `RenderError` is a caught class, EVERY
 parser-shaped tree is clean — for all trees, contexts, tables.  `shaped` is an invariant of parser output (no Star as the
 receiver of an operator, `f(DISTINCT)` has an argument, NativeQuery aliases have a part, `prepare_select` only gets
 Select / Union): it is evaluated by the driver on every parsed tree of the streams. -/
@@ -359,18 +372,16 @@ theorem C17_repaired_witnesses :
     ∧ saRaises Gr false .stmt (.mk (.insert (.ident 1) (some ["a", "a"]) false true) [.mk .grp [.mk (.const none) [], .mk (.const none) []]]) = some .sa
     ∧ Gr.tupleIsList = false ∧ Gr.dupExc.caught = true := by decide
 
-/-! ### [review] the live tables ARE the repaired ones
+/-! ### the live tables (reviewer's theorems, promoted)
 
-`Gen/SaTables.lean` regenerated from /repo HEAD has `tupleIsList = false` and `dupExc = "sa"`, i.e. fixes C17_1 / C17_3 have
-landed.  Consequences: (a) the premises of `C17_witness_tuple_operand` and `C17_witness_insert_dup` are FALSE today, so these two
-"witnesses" are vacuous implications, and the header sentence "Still leaking: a Python list (Tuple) as operand, duplicate INSERT
-column" describes history; (b) the hypothesis `clean` of `C17_partial` can be replaced, for the LIVE tables `G`, by the parser-shape
-invariant `shaped` alone.  Both facts break (the `decide`s below fail) if the code regresses. -/
+`Gen/SaTables.lean` regenerated from /repo HEAD has `tupleIsList = false` and `dupExc = "sa"`.  Hence the hypothesis `clean`
+of `C17_partial` is replaced, for the LIVE tables `G`, by the parser-shape invariant `shaped` alone.  The `decide`s below fail
+if the code regresses. -/
 
 -- [review]
 theorem C17_review_live_tables : G.tupleIsList = false ∧ G.dupExc.caught = true := by decide
 
--- [review] the two conditional witnesses are vacuous on the live tables
+-- [review] the live tables are not the old ones
 example : ¬ (SaTables.tupleIsList = true) := by decide
 example : ¬ (SaTables.dupExc = "exception") := by decide
 
@@ -384,6 +395,34 @@ theorem C17_review_live {ρ : Type} (w : Bool) (t : T) (saPart : Outcome ρ) (pr
     (dn : String) (hs : shaped G w .stmt t = true) (hsa : saQuiet saPart = true)
     (hpr : printerTotal printer = true) : Honours G w t saPart printer dn :=
   C17_partial_repaired G w t saPart printer dn C17_review_live_tables.1 C17_review_live_tables.2 hs hsa hpr
+
+/-- **exactness**: on a locally clean tree (in particular: on every parser-shaped tree of the live tables) the call WITH
+fallback raises if and only if SQLAlchemy's own part raised an uncaught class, or the rendering raised a caught class and the
+fallback printer `str(ast)` raised — the two behavioural hypotheses are exactly the remaining failure modes -/
+theorem C17_exact {ρ : Type} (tb : Tables) (w : Bool) (t : T) (saPart : Outcome ρ) (printer : Outcome String) (dn : String)
+    (kl : Bool) (hclean : clean tb w .stmt t = true) :
+    (getExecParams (innerOf tb w t saPart) printer true dn kl).isRaised = true ↔
+      ((saRaises tb w .stmt t = none ∧ saQuiet saPart = false)
+        ∨ ((match innerOf tb w t saPart with | .raise e => e.caught | .ret _ => false) = true ∧ printerTotal printer = false)) := by
+  have hok := clean_ok tb w .stmt t hclean
+  unfold innerOf
+  cases hr : saRaises tb w .stmt t with
+  | some e =>
+    have he : e.caught = true := by simpa [hr, okExc] using hok
+    cases printer <;> simp [getExecParams, Result.isRaised, he, printerTotal]
+  | none =>
+    cases saPart with
+    | ret r => simp [getExecParams, Result.isRaised, saQuiet]
+    | raise e =>
+      cases he : e.caught <;> cases printer <;> simp [getExecParams, Result.isRaised, saQuiet, he, printerTotal]
+
+/-- exactness on the live tables, for every parser-shaped tree -/
+theorem C17_live_exact {ρ : Type} (w : Bool) (t : T) (saPart : Outcome ρ) (printer : Outcome String) (dn : String)
+    (hs : shaped G w .stmt t = true) :
+    (getExecParams (innerOf G w t saPart) printer true dn SaTables.pgKeepsLiteral).isRaised = true ↔
+      ((saRaises G w .stmt t = none ∧ saQuiet saPart = false)
+        ∨ ((match innerOf G w t saPart with | .raise e => e.caught | .ret _ => false) = true ∧ printerTotal printer = false)) :=
+  C17_exact G w t saPart printer dn _ (shaped_clean G w C17_review_live_tables.1 C17_review_live_tables.2 .stmt t hs)
 
 -- [review] non-vacuity on the live tables: `select (a, b) + f(distinct a) from t join (native query)`
 example : shaped G false .stmt (sel [.mk (.binop "+" none) [tup [col "a", col "b"], .mk (.func true false none) [col "a"]]]
